@@ -4,7 +4,7 @@
 From Coq Require Import List Arith Bool NArith.
 From Conductor Require Import Model.Loader Model.Planner Model.Exec Model.RunCase
   Proofs.ExecInv Proofs.ExecTheorems Proofs.ExecMain Proofs.PlannerInv Proofs.PlannerOrder Proofs.ComposeExec.
-From Conductor Require Import Gen.Generated Proofs.GenTie.
+From Conductor Require Import Gen.Generated Proofs.GenTie Proofs.GenTieLowering.
 From Conductor Require Import Proofs.WfPlanDec Lib.Str Model.Env Proofs.SpawnEnv Proofs.GenTieEnv.
 Import ListNotations.
 
@@ -88,6 +88,16 @@ Print Assumptions C04_gate_is_the_sources.
 Theorem C04_slot_rule_is_the_sources : forall par jobs, gen_wants_slot par jobs = par && Nat.ltb 1 jobs.
 Proof. exact slot_tie. Qed.
 Print Assumptions C04_slot_rule_is_the_sources.
+
+(* ... and the flag the slot rule and the launch gate read -- an operation's `parallelizable` -- is the task's own declaration
+   for run_command / run_experiment and False for combine / group, for the root of the plan as for every other task (the
+   second visit of create_plan_for as TRANSLATED from planner.py on every run; seed C04/l lowered the requested task as
+   sequential) *)
+Theorem C04_parallelizable_is_the_declaration : forall k (tp : bool), exists cls par ver rec ser,
+  lowering_row k = Some (kind_code k, (cls, par, ver, rec, ser)) /\
+  (match k with KCommand | KExperiment => tp | _ => false end) = par && tp.
+Proof. intros k tp. destruct (lowering_tie k) as (c & p & v & r & s & H & _ & Hp & _). exists c, p, v, r, s. split; [exact H|apply Hp]. Qed.
+Print Assumptions C04_parallelizable_is_the_declaration.
 
 (* ... used by the model where the source uses it: the start event of a launched operation carries
    the top of the free-slot stack exactly when the translated condition holds of that operation *)
